@@ -20,6 +20,9 @@ def matches(sig, finding):
     return all(sig.get(k) == v for k, v in want.items())
 
 
+_FILES = {}   # pid -> number of replay files written by this process (several pipelines may report under one property)
+
+
 class Report(object):
     """Collects failures of one check run and produces the verdict lines."""
 
@@ -30,9 +33,11 @@ class Report(object):
         self.known_hits = {}
         self.n = 0
         self.sigs = set()
-        import glob
-        for f in glob.glob(os.path.join(common.FAILDIR, '%s-*.json' % pid)):
-            os.remove(f)
+        if pid not in _FILES:
+            import glob
+            for f in glob.glob(os.path.join(common.FAILDIR, '%s-*.json' % pid)):
+                os.remove(f)
+            _FILES[pid] = 0
 
     def failure(self, sig, replay_obj):
         for k in self.known:
@@ -48,7 +53,8 @@ class Report(object):
         self.sigs.add(key)
         if len(self.failures) < 12:
             os.makedirs(common.FAILDIR, exist_ok=True)
-            path = os.path.join(common.FAILDIR, '%s-%d.json' % (self.pid, len(self.failures) + 1))
+            _FILES[self.pid] += 1
+            path = os.path.join(common.FAILDIR, '%s-%d.json' % (self.pid, _FILES[self.pid]))
             replay_obj = dict(replay_obj)
             replay_obj['property'] = self.pid
             replay_obj['signature'] = sig
